@@ -2,7 +2,7 @@
    Only the property theorems; the proofs are in Regex.v (language, derivative matcher), Routes.v (route family),
    Dispatch.v (dispatcher, mount points, pool scan), Sites.v (dispatcher of a site), Mapper.v (mapper of a site,
    map_dispatch, mapper_total), MapOut.v (stream content in both invalid_url_throws settings), Rewrite.v / RewriteSpec.v (http.rewrite rules), Examples.v (a concrete instance satisfying every hypothesis of map_dispatch). *)
-From CppcmsV Require Import Base.Tac C20.Defs C20.Regex C20.Routes C20.Dispatch C20.Routed C20.Sites C20.Mapper C20.MapAbs C20.MapRel C20.MapAt C20.Examples C20.MapOut C20.Rewrite C20.RewriteSpec C20.MapKw C20.MapBare C20.MapKwNav C20.NotFound C20.Serve C20.MapUp C20.HttpRound C20.PoolDefs C20.PoolProofs C20.NumSpec C20.PoolSingle C20.TmplSpec C20.PoolTrace.
+From CppcmsV Require Import Base.Tac C20.Defs C20.Regex C20.Routes C20.Dispatch C20.Routed C20.Sites C20.Mapper C20.MapAbs C20.MapRel C20.MapAt C20.Examples C20.MapOut C20.Rewrite C20.RewriteSpec C20.MapKw C20.MapBare C20.MapKwNav C20.NotFound C20.Serve C20.MapUp C20.HttpRound C20.PoolDefs C20.PoolProofs C20.NumSpec C20.PoolSingle C20.TmplSpec C20.PoolTrace C20.KwNested C20.MountVals.
 Local Open Scope N_scope.
 
 (* 1. the matcher that models booster::regex::match accepts exactly the whole strings of the language *)
@@ -922,3 +922,118 @@ Example helper_values_nonvacuous :
   real_map (a, []) [] [112] [[55]] = Ok [47; 47; 97; 47; 55] /\
   real_map (a, []) vals [112] [] = Err EKey.
 Proof. vm_compute. repeat split; reflexivity. Qed.
+
+(* 14. KEYWORD placeholders in the mount urls of the ANCESTORS (KwNested.v).  url_mapper::data::map renders the entry of the key and
+   hands the text, as parameter 1, to the parent mapper's entry for the child's name - at EVERY level with the SAME helper maps:
+   hs = the set_value defaults of the topmost mapper, ov = the keyword parameters of the key.  level_ok (p, name) ps: the parent p
+   holds, for name with one parameter, the entry whose template is the pieces ps; nest renders the levels from the innermost
+   to the outermost.  So every {kw} at every level (page template and every ancestor's mount url) is named_value hs ov kw. *)
+Theorem mapper_threads_both_helper_maps_through_every_level : forall up lv cur key params hs ov lps c,
+  Forall2 level_ok up lv ->
+  get_entry (tbl cur) key (N.of_nat (length params)) = Some (ENT (tparts lps []) (tidx lps) c) ->
+  forallb tp_ok lps = true ->
+  data_map cur up key params hs ov =
+  match render params hs ov lps with
+  | None => Err EIndex
+  | Some u0 => match nest hs ov lv u0 with
+               | Some u => Ok (app_root (top_app cur up) ++ u)
+               | None => Err EIndex
+               end
+  end.
+Proof. exact data_map_nested. Qed.
+Print Assumptions mapper_threads_both_helper_maps_through_every_level.
+(* through url_mapper::map with the keyword form of ANY key (absolute, relative, dot-dot ...) that resolves to (cur, up) / rk *)
+Theorem mapper_keyword_overrides_reach_every_level : forall l vals key kws kvs params cur up rk lv lps c,
+  key <> [] -> noc 59 key = true ->
+  kws <> [] -> (forall x, In x kws -> noc 44 x = true) -> (forall x, In x kws -> noc 47 x = true) -> length kvs = length kws ->
+  mapper_for_key l key = Ok ((cur, up), rk, []) ->
+  Forall2 level_ok up lv ->
+  get_entry (tbl cur) rk (N.of_nat (length params)) = Some (ENT (tparts lps []) (tidx lps) c) ->
+  forallb tp_ok lps = true ->
+  real_map l vals (key ++ 59 :: joinc 44 kws) (kvs ++ params) =
+  match render params vals (zip_kw kws kvs) lps with
+  | None => Err EIndex
+  | Some u0 => match nest vals (zip_kw kws kvs) lv u0 with
+               | Some u => Ok (app_root (top_app cur up) ++ u)
+               | None => Err EIndex
+               end
+  end.
+Proof. exact real_map_keywords_nested. Qed.
+Print Assumptions mapper_keyword_overrides_reach_every_level.
+(* a mount written  /{kw}<prefix>{1}  in the mapper and  slash, non-slash run (group 1), prefix, rest (group 2 -> child)  in the
+   dispatcher: the pattern, matched against the url of its level, captures exactly the keyword value and the inner url *)
+Theorem keyword_mount_captures_value_and_inner_url : forall pf v u,
+  slash_first pf -> kvalue_ok v -> forallb (cmem cs_dot) u = true ->
+  pat_match (PRoute (kmount_route pf)) (route_fill (kmount_route pf) [v; u]) = Some (route_fill (kmount_route pf) [v; u] :: [v; u]).
+Proof. exact kmount_match. Qed.
+Print Assumptions keyword_mount_captures_value_and_inner_url.
+(* composed, any nesting depth: kroute = the way from the node up to the root through such mounts (at each level the mount is
+   the first option that takes the url of that level; the keyword value is non-empty and slash-free).  The url that map() writes
+   for key;kws routes from the root to whatever the node does with its own part, every level capturing the override *)
+Theorem map_dispatch_keyword_overrides_at_every_level :
+  forall l vals key kws kvs params cur up rk chain lps cc uroot c hid args u0,
+  key <> [] -> noc 59 key = true ->
+  kws <> [] -> (forall x, In x kws -> noc 44 x = true) -> (forall x, In x kws -> noc 47 x = true) -> length kvs = length kws ->
+  mapper_for_key l key = Ok ((cur, up), rk, []) ->
+  Forall2 level_ok up (map (fun x => kmount_pieces (fst x) (snd x)) chain) ->
+  get_entry (tbl cur) rk (N.of_nat (length params)) = Some (ENT (tparts lps []) (tidx lps) cc) ->
+  forallb tp_ok lps = true ->
+  render params vals (zip_kw kws kvs) lps = Some u0 ->
+  kroute vals (zip_kw kws kvs) c cur u0 up chain uroot ->
+  routed cur u0 c hid args ->
+  real_map l vals (key ++ 59 :: joinc 44 kws) (kvs ++ params) = Ok (app_root (top_app cur up) ++ uroot) /\
+  dispatch (top_app cur up) uroot c = Fired hid args /\
+  Forall2 (fun lvl cap => pat_match (PRoute (kmount_route (snd (fst lvl)))) (snd lvl) = Some [snd lvl; fst cap; snd cap])
+          (combine chain (klevel_urls vals (zip_kw kws kvs) chain u0)) (kcaptures vals (zip_kw kws kvs) chain u0) /\
+  Forall (fun cap => exists kw, In kw (map fst chain) /\ fst cap = named_value vals (zip_kw kws kvs) kw)
+         (kcaptures vals (zip_kw kws kvs) chain u0).
+Proof. exact kw_map_dispatch. Qed.
+Print Assumptions map_dispatch_keyword_overrides_at_every_level.
+Theorem map_dispatch_defaults_at_every_level : forall l vals key cur up rk chain lps cc uroot c hid args u0 params,
+  mapper_for_key l key = Ok ((cur, up), rk, []) ->
+  Forall2 level_ok up (map (fun x => kmount_pieces (fst x) (snd x)) chain) ->
+  get_entry (tbl cur) rk (N.of_nat (length params)) = Some (ENT (tparts lps []) (tidx lps) cc) ->
+  forallb tp_ok lps = true ->
+  render params vals [] lps = Some u0 ->
+  kroute vals [] c cur u0 up chain uroot ->
+  routed cur u0 c hid args ->
+  real_map l vals key params = Ok (app_root (top_app cur up) ++ uroot) /\
+  dispatch (top_app cur up) uroot c = Fired hid args.
+Proof. exact map_dispatch_defaults_nested. Qed.
+Print Assumptions map_dispatch_defaults_at_every_level.
+(* which defaults: values set on a mapper before its application is mounted are moved to the topmost mapper by url_mapper::mount
+   (MountVals.collect_vals); the node's own values win over what came up from its children *)
+Theorem premount_own_values_win_over_childrens : forall f a own vk k,
+  kv_find k (collect_vals (S f) a (VT own vk)) =
+  match kv_find k own with
+  | Some x => Some x
+  | None => kv_find k (flat_map (fun m => match m with
+                                          | MMount _ _ i => match nth_error (app_kids a) i, nth_error vk i with
+                                                            | Some kid, Some kv' => collect_vals f kid kv'
+                                                            | _, _ => []
+                                                            end
+                                          | MUrl _ _ => []
+                                          end) (app_ments a))
+  end.
+Proof. exact premount_values_precedence. Qed.
+Print Assumptions premount_own_values_win_over_childrens.
+Example keyword_levels_nonvacuous :
+  (* root -> mid -> leaf, both mounts /{lang}<prefix>{1}, page /{lang}/item/{1}, default lang=en.  map(/mid/leaf/item;lang, ru, 7) carries ru
+     at all three levels (a mapper that loses the overrides on the way up would write en at the two mount levels), without the
+     keyword en at all three; the url routes back and the handler gets (ru, 7); every hypothesis of the composed theorem holds *)
+  let ru := [114; 117] in let get := Some [71; 69; 84] in
+  real_map (k_root, []) k_vals (k_key ++ 59 :: k_lang) [ru; [55]] = Ok (k_url ru) /\
+  real_map (k_root, []) k_vals k_key [[55]] = Ok (k_url [101; 110]) /\
+  real_map (k_leaf, k_up) k_vals ([105; 116; 101; 109] ++ 59 :: k_lang) [ru; [55]] = Ok (k_url ru) /\
+  real_map (k_mid, [(k_root, [109; 105; 100])]) [] ([108; 101; 97; 102; 47; 105; 116; 101; 109] ++ 59 :: k_lang) [ru; [55]] = Ok (k_url ru) /\
+  dispatch k_root (k_url ru) get = Fired 7 [ru; [55]] /\
+  mapper_for_key (k_root, []) k_key = Ok ((k_leaf, k_up), [105; 116; 101; 109], []) /\
+  Forall2 level_ok k_up (map (fun x => kmount_pieces (fst x) (snd x)) k_chain) /\
+  kroute k_vals (zip_kw [k_lang] [ru]) get k_leaf [47; 114; 117; 47; 105; 116; 101; 109; 47; 55] k_up k_chain (k_url ru) /\
+  kcaptures k_vals (zip_kw [k_lang] [ru]) k_chain [47; 114; 117; 47; 105; 116; 101; 109; 47; 55] =
+    [(ru, [47; 114; 117; 47; 105; 116; 101; 109; 47; 55]); (ru, [47; 114; 117; 47; 108; 101; 97; 102; 47; 114; 117; 47; 105; 116; 101; 109; 47; 55])].
+Proof.
+  cbv zeta. repeat split; try (vm_compute; reflexivity).
+  - exact k_example_levels.
+  - exact k_example_route.
+Qed.
